@@ -11,8 +11,10 @@ from .loader import dotted
 class Term:
     __slots__ = ("p",)
 
-    def __init__(self, p=None):
+    def __init__(self, p=None, norm=True):
         self.p = {k: v for k, v in (p or {}).items() if v != 0}
+        if norm and any(a.startswith("floordiv(") for k in self.p if k for a in k):
+            self.p = _divnorm(self.p)
 
     @staticmethod
     def const(c):
@@ -89,6 +91,108 @@ class Term:
 
 def T(x):
     return x if isinstance(x, Term) else Term.const(x)
+
+
+# ---------------------------------------------------------------- (a // b) * b  ==  a - a % b
+def _split_top(text, sep):
+    out, depth, cur, i = [], 0, "", 0
+    while i < len(text):
+        ch = text[i]
+        if ch in "([{":
+            depth += 1
+        elif ch in ")]}":
+            depth -= 1
+        if depth == 0 and text.startswith(sep, i):
+            out.append(cur)
+            cur = ""
+            i += len(sep)
+            continue
+        cur += ch
+        i += 1
+    out.append(cur)
+    return out
+
+
+def parse_key(text):
+    """inverse of Term.key() (atoms are kept as opaque texts)"""
+    if text == "0":
+        return Term()
+    p = {}
+    for mono in _split_top(text, " + "):
+        parts = _split_top(mono, "*")
+        c = Fraction(1)
+        atoms = []
+        for i, part in enumerate(parts):
+            if i == 0:
+                try:
+                    c = Fraction(part)
+                    continue
+                except (ValueError, ZeroDivisionError):
+                    pass
+            atoms.append(part)
+        k = tuple(sorted(atoms))
+        p[k] = p.get(k, 0) + c
+    return Term(p)
+
+
+_DIVARGS = {}
+
+
+def _div_args(atom):
+    r = _DIVARGS.get(atom)
+    if r is None:
+        inner = atom[len("floordiv("):-1]
+        parts = _split_top(inner, ",")
+        if len(parts) != 2:
+            r = (None, None)
+        else:
+            try:
+                r = (parse_key(parts[0]), parse_key(parts[1]))
+            except Exception:
+                r = (None, None)
+        _DIVARGS[atom] = r
+    return r
+
+
+def _divnorm(p):
+    """normal form for exact-multiple products: floordiv(X,Y)*Y -> X - mod(X,Y) (Y one atom, or a constant dividing the coefficient)"""
+    p = dict(p)
+    for _ in range(16):
+        hit = None
+        for k, v in p.items():
+            for a in k:
+                if not (a.startswith("floordiv(") and a.endswith(")")):
+                    continue
+                X, Y = _div_args(a)
+                if X is None:
+                    continue
+                rest = list(k)
+                rest.remove(a)
+                if Y.is_const():
+                    cy = Y.value()
+                    if cy in (0, 1) or (v / cy).denominator != 1:
+                        continue
+                    m = v / cy
+                elif len(Y.p) == 1 and list(Y.p.values())[0] == 1 and len(list(Y.p)[0]) == 1 and list(Y.p)[0][0] in rest:
+                    rest.remove(list(Y.p)[0][0])
+                    m = v
+                else:
+                    continue
+                hit = (k, a, X, Y, rest, m)
+                break
+            if hit:
+                break
+        if not hit:
+            break
+        k, a, X, Y, rest, m = hit
+        del p[k]
+        rest_t = Term({tuple(sorted(rest)): Fraction(1)}, norm=False)
+        mod_atom = Term({(f"mod({X.key()},{Y.key()})",): Fraction(1)}, norm=False)
+        add = ((X - mod_atom) * rest_t).scale(m)
+        for k2, v2 in add.p.items():
+            p[k2] = p.get(k2, 0) + v2
+        p = {k2: v2 for k2, v2 in p.items() if v2 != 0}
+    return p
 
 
 class Evaluator:
@@ -246,7 +350,7 @@ class Evaluator:
         if isinstance(node, ast.Tuple):
             return Term.atom("tuple(" + ",".join(self.ev(e).key() for e in node.elts) + ")")
         if isinstance(node, ast.List):
-            return Term.atom("list(" + ",".join(self.ev(e).key() for e in node.elts) + ")")
+            return Term.atom("[" + ",".join(self.ev(e).key() for e in node.elts) + "]")
         if isinstance(node, (ast.Compare, ast.BoolOp)):
             return Term.atom("cond(" + self.cond(node) + ")")
         return self.atom_of("opaque(" + " ".join(ast.unparse(node).split())[:80] + ")", node)
